@@ -19,11 +19,15 @@ use std::sync::atomic::{AtomicUsize, Ordering};
 
 static DESTROYED: AtomicUsize = AtomicUsize::new(0);
 
-struct Big {
-    next: RefCell<Vec<Rc<Big>>>,
+/// `P` bytes of padding: the scaling cases run on a small payload (P = 0) and,
+/// with `fat`, on one larger than a page (code paths that depend on
+/// `size_of::<T>()` at scale).
+struct Big<const P: usize> {
+    pad: [u8; P],
+    next: RefCell<Vec<Rc<Big<P>>>>,
 }
 
-impl Drop for Big {
+impl<const P: usize> Drop for Big<P> {
     fn drop(&mut self) {
         DESTROYED.fetch_add(1, Ordering::Relaxed);
     }
@@ -60,6 +64,9 @@ pub struct ScaleCase {
     /// no forward link)
     #[serde(default)]
     pub leaf: bool,
+    /// payload of 4200 bytes instead of a small one (at most 40000 objects)
+    #[serde(default)]
+    pub fat: bool,
 }
 
 fn max_n(tier: Tier, shape: u8) -> f64 {
@@ -81,21 +88,21 @@ pub fn n_of(c: &ScaleCase, tier: Tier) -> usize {
 const CAP: usize = 8;
 
 /// Returns (objects, distinct recorded (owner,target) pairs, recorded adoptions).
-unsafe fn build(c: &ScaleCase, n: usize) -> (Box<Rc<Big>>, usize, usize) {
+unsafe fn build<const P: usize>(c: &ScaleCase, n: usize) -> (Box<Rc<Big<P>>>, usize, usize) {
     // one spare slot beyond CAP: reserved for the shared leaf (`leaf`)
-    let mk = || Rc::new(Big { next: RefCell::new(Vec::with_capacity(CAP + 1)) });
+    let mk = || Rc::new(Big::<P> { pad: [0x5A; P], next: RefCell::new(Vec::with_capacity(CAP + 1)) });
     // boxed so that its address stays valid when it is returned
-    let h0: Box<Rc<Big>> = Box::new(mk());
+    let h0: Box<Rc<Big<P>>> = Box::new(mk());
     // slot[i] points at a handle to node i that lives inside another node's Vec
     // (capacity is reserved, so the Vec never reallocates)
-    let mut slot: Vec<*const Rc<Big>> = vec![std::ptr::null(); n];
-    slot[0] = &*h0 as *const Rc<Big>;
+    let mut slot: Vec<*const Rc<Big<P>>> = vec![std::ptr::null(); n];
+    slot[0] = &*h0 as *const Rc<Big<P>>;
     let mut pairs = std::collections::HashSet::new();
     let mut adoptions = 0usize;
     let shape = c.shape % 7;
     if shape == 4 {
         // hub 0 owns and adopts n-1 spokes (moved handles)
-        let h0r: &Rc<Big> = &*slot[0];
+        let h0r: &Rc<Big<P>> = &*slot[0];
         *h0r.next.borrow_mut() = Vec::with_capacity(n + CAP);
         for k in 1..n {
             let h = mk();
@@ -107,7 +114,7 @@ unsafe fn build(c: &ScaleCase, n: usize) -> (Box<Rc<Big>>, usize, usize) {
         return (h0, pairs.len(), adoptions);
     }
     if shape == 6 {
-        let h0r: &Rc<Big> = &*slot[0];
+        let h0r: &Rc<Big<P>> = &*slot[0];
         *h0r.next.borrow_mut() = Vec::with_capacity(n + CAP);
         for k in 1..n {
             let h = mk();
@@ -124,7 +131,7 @@ unsafe fn build(c: &ScaleCase, n: usize) -> (Box<Rc<Big>>, usize, usize) {
     }
     if shape == 5 {
         // object 0 owns n handles to object 1, each adopted; then churn
-        let h0r: &Rc<Big> = &*slot[0];
+        let h0r: &Rc<Big<P>> = &*slot[0];
         *h0r.next.borrow_mut() = Vec::with_capacity(n + CAP);
         let b = mk();
         for _ in 0..n {
@@ -141,9 +148,9 @@ unsafe fn build(c: &ScaleCase, n: usize) -> (Box<Rc<Big>>, usize, usize) {
         drop(b);
         return (h0, 1, adoptions);
     }
-    let edge = |a: usize, b: usize, slot: &Vec<*const Rc<Big>>, pairs: &mut std::collections::HashSet<(usize, usize)>, adoptions: &mut usize| {
-        let ha: &Rc<Big> = &*slot[a];
-        let hb: &Rc<Big> = &*slot[b];
+    let edge = |a: usize, b: usize, slot: &Vec<*const Rc<Big<P>>>, pairs: &mut std::collections::HashSet<(usize, usize)>, adoptions: &mut usize| {
+        let ha: &Rc<Big<P>> = &*slot[a];
+        let hb: &Rc<Big<P>> = &*slot[b];
         if ha.next.borrow().len() >= CAP {
             return;
         }
@@ -155,8 +162,8 @@ unsafe fn build(c: &ScaleCase, n: usize) -> (Box<Rc<Big>>, usize, usize) {
     };
     if shape == 2 {
         // star 0 -> i by moving the only handle, then all other ordered pairs
-        let h0r: &Rc<Big> = &*slot[0];
-        let mut star: Vec<Rc<Big>> = Vec::with_capacity(n);
+        let h0r: &Rc<Big<P>> = &*slot[0];
+        let mut star: Vec<Rc<Big<P>>> = Vec::with_capacity(n);
         for _ in 1..n {
             star.push(mk());
         }
@@ -166,19 +173,19 @@ unsafe fn build(c: &ScaleCase, n: usize) -> (Box<Rc<Big>>, usize, usize) {
             Rc::adopt_unchecked(h0r, &h);
             h0r.next.borrow_mut().push(h);
             let v = h0r.next.borrow();
-            slot[k + 1] = &v[k] as *const Rc<Big>;
+            slot[k + 1] = &v[k] as *const Rc<Big<P>>;
             pairs.insert((0, k + 1));
             adoptions += 1;
         }
         for a in 1..n {
-            let ha: &Rc<Big> = &*slot[a];
+            let ha: &Rc<Big<P>> = &*slot[a];
             *ha.next.borrow_mut() = Vec::with_capacity(n + CAP);
         }
         for a in 0..n {
             for b in 0..n {
                 if a != b && !(a == 0) {
-                    let ha: &Rc<Big> = &*slot[a];
-                    let hb: &Rc<Big> = &*slot[b];
+                    let ha: &Rc<Big<P>> = &*slot[a];
+                    let hb: &Rc<Big<P>> = &*slot[b];
                     let cl = Rc::clone(hb);
                     Rc::adopt_unchecked(ha, &cl);
                     ha.next.borrow_mut().push(cl);
@@ -189,12 +196,12 @@ unsafe fn build(c: &ScaleCase, n: usize) -> (Box<Rc<Big>>, usize, usize) {
         }
     } else {
         for i in 1..n {
-            let prev: &Rc<Big> = &*slot[i - 1];
+            let prev: &Rc<Big<P>> = &*slot[i - 1];
             let h = mk();
             Rc::adopt_unchecked(prev, &h);
             prev.next.borrow_mut().push(h);
             let v = prev.next.borrow();
-            slot[i] = &v[v.len() - 1] as *const Rc<Big>;
+            slot[i] = &v[v.len() - 1] as *const Rc<Big<P>>;
             pairs.insert((i - 1, i));
             adoptions += 1;
         }
@@ -216,7 +223,7 @@ unsafe fn build(c: &ScaleCase, n: usize) -> (Box<Rc<Big>>, usize, usize) {
         }
         if c.loopbacks {
             for i in 0..n {
-                let h: &Rc<Big> = &*slot[i];
+                let h: &Rc<Big<P>> = &*slot[i];
                 Rc::adopt_unchecked(h, h);
                 adoptions += 1;
             }
@@ -224,7 +231,7 @@ unsafe fn build(c: &ScaleCase, n: usize) -> (Box<Rc<Big>>, usize, usize) {
         if c.leaf {
             let leaf = mk();
             for i in 0..n {
-                let h: &Rc<Big> = &*slot[i];
+                let h: &Rc<Big<P>> = &*slot[i];
                 if h.next.borrow().len() > CAP {
                     continue;
                 }
@@ -249,7 +256,17 @@ pub fn scaleprobe_cmd(args: &[String]) -> i32 {
     let n: usize = args[1].parse().unwrap();
     let do_drop = args[2] == "1";
     exec::set_log_level_sel(c.log);
-    let (h0, pairs, adoptions) = unsafe { build(&c, n) };
+    if c.fat {
+        scaleprobe_p::<FAT>(&c, n, do_drop)
+    } else {
+        scaleprobe_p::<0>(&c, n, do_drop)
+    }
+}
+
+const FAT: usize = 4200;
+
+fn scaleprobe_p<const P: usize>(c: &ScaleCase, n: usize, do_drop: bool) -> i32 {
+    let (h0, pairs, adoptions) = unsafe { build::<P>(c, n) };
     if do_drop {
         DESTROYED.store(0, Ordering::Relaxed);
         drop(*h0);
@@ -380,8 +397,8 @@ pub const L_HUGE: u32 = 5;
 impl Kind for ScaleKind {
     type Case = ScaleCase;
     fn strategy(_id: &str, _tier: Tier, _variant: u64) -> BoxedStrategy<ScaleCase> {
-        (0u8..7, any::<u16>(), vec((any::<u32>(), any::<u32>()), 0..48), vec(any::<u32>(), 0..16), any::<bool>(), 0u8..4, 0u8..16, 0u8..4)
-            .prop_map(|(shape, size, chords, selfs, parallel, lb, lg, lf)| ScaleCase { shape, size, chords, selfs, parallel, probe: None, loopbacks: lb == 0, log: if lg < 8 { lg } else { 0 }, leaf: lf == 0 })
+        (0u8..7, any::<u16>(), vec((any::<u32>(), any::<u32>()), 0..48), vec(any::<u32>(), 0..16), any::<bool>(), 0u8..4, 0u8..16, 0u8..16)
+            .prop_map(|(shape, size, chords, selfs, parallel, lb, lg, lf)| ScaleCase { shape, size, chords, selfs, parallel, probe: None, loopbacks: lb == 0, log: if lg < 8 { lg } else { 0 }, leaf: lf % 4 == 0, fat: lf >= 12 })
             .boxed()
     }
     fn run(_id: &str, tier: Tier, c: &ScaleCase) -> CaseResult {
@@ -390,73 +407,14 @@ impl Kind for ScaleKind {
         }
         let views = View::Scale.bit() | View::Crash.bit() | View::Abort.bit() | View::LibPanic.bit();
         let n = n_of(c, tier);
+        // the fat payload at most 40000 times (170 MB)
+        let n = if c.fat { n.min(40_000) } else { n };
         let mut r = exec::run_forked(views, 120, || {
-            let sh = exec::shared();
-            // plain counting allocator: no guard pages for large N
-            arena::st().count_only = true;
-            exec::set_log_level_sel(c.log);
-            let (h0, pairs, adoptions) = unsafe { build(c, n) };
-            sh.counters[20] = n as u64;
-            sh.counters[21] = pairs as u64;
-            sh.counters[22] = adoptions as u64;
-            DESTROYED.store(0, Ordering::Relaxed);
-            cactusref::__verif::reset();
-            exec::set_msg(&format!("final drop of an orphaned group of {} objects / {} adoptions on a 128 KiB stack", n, adoptions));
-            sh.phase = exec::Phase::Lib as u32;
-            let h0 = std::sync::Mutex::new(Some(SendPtr(Rc::into_raw(*h0))));
-            let t = std::thread::Builder::new()
-                .stack_size(128 * 1024)
-                .spawn(move || {
-                    let p = h0.lock().unwrap().take().unwrap();
-                    let h = unsafe { Rc::from_raw(p.0) };
-                    drop(h);
-                })
-                .expect("spawn");
-            let joined = t.join();
-            sh.phase = 0;
-            if joined.is_err() {
-                violate(View::LibPanic, "the final drop panicked");
+            if c.fat {
+                scale_body::<FAT>(c, n)
+            } else {
+                scale_body::<0>(c, n)
             }
-            let cn = cactusref::__verif::counters();
-            let d = DESTROYED.load(Ordering::Relaxed);
-            sh.counters[23] = cn[0] as u64;
-            sh.counters[24] = cn[1] as u64;
-            sh.counters[25] = cn[2] as u64;
-            sh.counters[26] = cn[3] as u64;
-            let expect = if c.shape % 7 == 5 { 2 } else { n + usize::from(c.leaf && matches!(c.shape % 7, 0 | 1 | 3)) };
-            if d != expect {
-                violate(View::Scale, &format!("orphaned group of {} objects: only {} were destroyed by the final drop", expect, d));
-            }
-            let (calls, pops, visits, edges) = (cn[0], cn[1], cn[2], cn[3]);
-            if visits > 8 * n + 8 {
-                violate(
-                    View::Scale,
-                    &format!("tracing a group of {} objects scanned {} link tables over {} trace(s) (bound 8N+8): not one bounded visit per object", n, visits, calls),
-                );
-            }
-            if pops > 8 * (n + adoptions) + 8 || edges > 16 * (n + adoptions) + 16 {
-                violate(
-                    View::Scale,
-                    &format!("tracing a group of {} objects / {} adoptions popped {} worklist items and scanned {} entries over {} trace(s): not linear", n, adoptions, pops, edges, calls),
-                );
-            }
-            let mut l = 0u64;
-            if n >= 1000 {
-                l |= 1 << L_BIG;
-            }
-            if n >= 100_000 {
-                l |= 1 << L_HUGE;
-            }
-            l |= 1 << match c.shape % 7 {
-                0 => L_RING,
-                1 => L_CHORDS,
-                2 => L_CLIQUE,
-                3 => L_SELF,
-                4 => L_HUB,
-                5 => L_CHURN,
-                _ => L_MUTUAL,
-            };
-            sh.labels = l;
         });
         // a stack overflow on the small-stack thread cannot run the fault handler
         if r.outcome == exec::Outcome::OtherView || (r.outcome == exec::Outcome::Violation && r.signal != 0) {
@@ -506,5 +464,74 @@ impl Kind for ScaleKind {
     }
 }
 
-struct SendPtr(*const Big);
-unsafe impl Send for SendPtr {}
+struct SendPtr<const P: usize>(*const Big<P>);
+unsafe impl<const P: usize> Send for SendPtr<P> {}
+
+fn scale_body<const P: usize>(c: &ScaleCase, n: usize) {
+        let sh = exec::shared();
+        // plain counting allocator: no guard pages for large N
+        arena::st().count_only = true;
+        exec::set_log_level_sel(c.log);
+        let (h0, pairs, adoptions) = unsafe { build::<P>(c, n) };
+        sh.counters[20] = n as u64;
+        sh.counters[21] = pairs as u64;
+        sh.counters[22] = adoptions as u64;
+        DESTROYED.store(0, Ordering::Relaxed);
+        cactusref::__verif::reset();
+        exec::set_msg(&format!("final drop of an orphaned group of {} objects / {} adoptions on a 128 KiB stack", n, adoptions));
+        sh.phase = exec::Phase::Lib as u32;
+        let h0 = std::sync::Mutex::new(Some(SendPtr(Rc::into_raw(*h0))));
+        let t = std::thread::Builder::new()
+            .stack_size(128 * 1024)
+            .spawn(move || {
+                let p = h0.lock().unwrap().take().unwrap();
+                let h = unsafe { Rc::from_raw(p.0) };
+                drop(h);
+            })
+            .expect("spawn");
+        let joined = t.join();
+        sh.phase = 0;
+        if joined.is_err() {
+            violate(View::LibPanic, "the final drop panicked");
+        }
+        let cn = cactusref::__verif::counters();
+        let d = DESTROYED.load(Ordering::Relaxed);
+        sh.counters[23] = cn[0] as u64;
+        sh.counters[24] = cn[1] as u64;
+        sh.counters[25] = cn[2] as u64;
+        sh.counters[26] = cn[3] as u64;
+        let expect = if c.shape % 7 == 5 { 2 } else { n + usize::from(c.leaf && matches!(c.shape % 7, 0 | 1 | 3)) };
+        if d != expect {
+            violate(View::Scale, &format!("orphaned group of {} objects: only {} were destroyed by the final drop", expect, d));
+        }
+        let (calls, pops, visits, edges) = (cn[0], cn[1], cn[2], cn[3]);
+        if visits > 8 * n + 8 {
+            violate(
+                View::Scale,
+                &format!("tracing a group of {} objects scanned {} link tables over {} trace(s) (bound 8N+8): not one bounded visit per object", n, visits, calls),
+            );
+        }
+        if pops > 8 * (n + adoptions) + 8 || edges > 16 * (n + adoptions) + 16 {
+            violate(
+                View::Scale,
+                &format!("tracing a group of {} objects / {} adoptions popped {} worklist items and scanned {} entries over {} trace(s): not linear", n, adoptions, pops, edges, calls),
+            );
+        }
+        let mut l = 0u64;
+        if n >= 1000 {
+            l |= 1 << L_BIG;
+        }
+        if n >= 100_000 {
+            l |= 1 << L_HUGE;
+        }
+        l |= 1 << match c.shape % 7 {
+            0 => L_RING,
+            1 => L_CHORDS,
+            2 => L_CLIQUE,
+            3 => L_SELF,
+            4 => L_HUB,
+            5 => L_CHURN,
+            _ => L_MUTUAL,
+        };
+        sh.labels = l;
+}
